@@ -16,6 +16,9 @@ CLAIMED = {
  "C12": ("7 C12", "TLC model checking of the documented partitions (exactly size groups, disjoint cover, idempotent homomorphism; sizes 0..25) + the real residue map of all 12 sizes x 20 residues and replies on random sequences / user alphabets of every class judged by TLC against the partitions and the acceptance rule", NOTE),
  "C13": ("7 C13", "TLC model checking of string normalisation (every token string up to a bound over ten character classes: clean, idempotent, foreign/blank rejected, whitespace irrelevant) + replay of every state with seeded concrete characters into SequenceParameters() + TLC trace validation (Trace_Input) of constructions recorded for case/whitespace-injected sequences and every code point 0..0x2FF (+ Unicode sample) at every position", NOTE + "; Python's str.upper/str.isspace tables are exported to TLC as data"),
  "C14": ("7 C14", "TLC model checking of the file-parser state machine (every file up to a bound over ten character classes built and parsed by BlankLine/HeaderLine/SeqLine/Finish actions: the machine accepts exactly the documentation's reading with the same residues; reject sticky; one header) + replay of every such file through real files into parseSeqFile / SequenceParameters(sequenceFile=) + TLC trace validation of realistic layouts and all single-character corruptions", NOTE),
+ "C15": ("7 C15", "TLC model checking of the object state machine (SeqObject: 2 objects, both delta-max caches and the shared default argument modelled as coded, all query kinds, mutators, children): full reachable graph, HistoryIndependent, CacheSound, ReadOnlyFrame, CrossObjectFrame + every TLC behaviour of bounded length stepped through real objects (abstract state compared after each action, replies compared with a fresh twin and across histories) + TLC trace validation (Trace_Object) of random 30-200 call histories on 3 live objects", NOTE + "; hidden state read through plain attributes; hidden cache flags that deviate from the automaton are reported as conformance notes, not alarms"),
+ "C16": ("7 C16", "TLC model checking of the phosphosite rule (every argument of up to two positions in -2..8 on two sequences: SitesValid, NoRepeats, SetSemantics = documentation's reading, ClearEmpties, SeqImmutable) + every TLC behaviour replayed on a real object + phosphosequence / kappa after phosphorylation / 2^k distribution (order, bits, six values) judged by TLC for every reached state + TLC trace validation of random set/clear series with arbitrary integers", NOTE),
+ "C20": ("7 C20", "TLC model checking of rendering as a token sequence (strip recovers the sequence, space exactly before residues 0,10,.., break exactly before 0,50,.., colour = palette entry; length classes up to 151) and of palette updates (PaletteAtomic, PaletteTotal over valid / extra key / missing key / invalid colour / wrong case) + TLC behaviours replayed on real objects + TLC trace validation: every real rendering tokenised and compared with Render(sequence, palette) of the tracked state", NOTE),
  "C05": ("7 C05", "TLC model checking (delta numerator, SCD coefficients and delta-max invariant under reversal / inversion / p<->n for every pattern up to a bound) + replay of every state with random class-preserving substitutions, reversal and inversion into the five getters + TLC trace validation of base and variants on long random sequences", NOTE),
  "C07": ("7 C07", "TLC model checking of the SCD coefficients (zero with < 2 charges, pattern-only, symmetric) + replay of every pattern up to a bound into get_SCD + TLC trace validation on long random / strongly correlated sequences with a sqrt table whose bracket TLC verifies", NOTE),
  "C02": ("7 C02", "TLC model checking of the patterning spec (every charge pattern up to a length bound is a state; the scaled-integer delta is shown equal to the Das-Pappu definition in exact rationals) + replay of every TLC state into get_delta + TLC trace validation (Trace_Queries) of get_delta replies recorded from the real code on long random sequences with random call histories",
